@@ -272,6 +272,19 @@ void run_sweep(Stats& st) {
 		p.files[1].second = uint64_t(int64_t(0x100000000ull) + delta) - off2 - 8;
 		vol_refusal_case(p, delta & 1, st, "offset_exactly_at_2^32");
 	}
+	// VOL: EMPTY members whose own blocks still start below 2^32 (at 2^32-8k .. 2^32-4) followed by one more member whose block cannot: every
+	// offset is judged on its own accumulated value, also behind members that add only their 8-byte header
+	for (unsigned empties = 1; empties <= 3; ++empties) for (int delta : {-24, -16, -8, -4}) {
+		if (int64_t(delta) + 8 * int64_t(empties) < 0) continue;    // the member behind the empties must land at or past 2^32
+		if (!sw("vol_empty_at_edge", empties, uint64_t(delta + 32))) continue;
+		VolPlan p; p.files = {{"a1.big", 0x7FFFFFFCull}, {"a2.big", 0}};
+		for (unsigned k = 0; k < empties; ++k) p.files.push_back({"a3" + std::string(1, char('a' + k)) + ".nil", 0});
+		p.files.push_back({"a9.end", 5});
+		uint64_t names = 0; for (auto& f : p.files) names += f.first.size() + 1;
+		uint64_t off2 = 32 + ((names + 7) & ~uint64_t(3)) + ((14 * p.files.size() + 3) & ~uint64_t(3)) + 8 + 0x7FFFFFFCull;
+		p.files[1].second = uint64_t(int64_t(0x100000000ull) + delta) - off2 - 8;    // first empty member's block starts at 2^32 + delta
+		vol_refusal_case(p, (empties + unsigned(-delta)) & 1, st, "empty_members_at_the_edge");
+	}
 	if (sw("clm_big_sources_fit")) clm_big_files_fit_case(st);
 	// CLM: data offsets crossing 2^32
 	if (sw("clm_cross", 0)) clm_refusal_case({0x60000000u, 0x60000000u, 0x60000000u}, st, "offset_crossing");
